@@ -94,6 +94,8 @@ def classify(name, desc):
         return "obl", desc[4:]
     if desc.startswith("REACH:"):
         return "reach", desc
+    if ".no-body." in name:
+        return "nobody", "nobody:" + name.split(".no-body.")[-1]
     d = desc
     if "unwinding assertion" in d or name.endswith(".unwind") or ".unwind." in name:
         return "unwind", "unwind:" + re.sub(r"\.\d+$", "", name)
@@ -452,6 +454,10 @@ def run_property(prop, tier="quick", only=None, keep=False, update_lock=False, v
             if cls == "unwind":
                 if a["fail"]:
                     inconclusive.append((j.name, f"unwinding assertion failed: {key}", ""))
+                continue
+            if cls == "nobody":
+                if a["fail"] and key.split(":")[1] not in j.havoc:
+                    inconclusive.append((j.name, f"reachable call to a function without body: {key}", ""))
                 continue
             if cls in ("obl", "post"):
                 have_obl = True
